@@ -99,7 +99,7 @@ CHECKS.update({
     text="Generated pop-on / roll-up / paint-on streams (any row/indent/TO, standard/special/extended characters, PAC and mid-row attributes, doubled or "
          "single control codes, channel-2 groups, padding, parity, DF/NDF time codes) and the bundled files are decoded by an independent 608 decoder; "
          "settled screens, pop-on/roll-up/paint-on timing windows, frame exactness, style runs, channel-2 and parity invariance are compared with the document.",
-    note="Known findings F-SCC-DUP-FRAMES and F-SCC-ROLLUP-ROW15 attributed by exact classifiers; columns, alignment heuristics and blank-cell attributes not judged.",
+    note="Known findings F-SCC-DUP-FRAMES and F-SCC-ROLLUP-ROW15 attributed by exact classifiers, F-SCC-PAC-ONTO-WRITTEN-ROW by two fixed inputs; columns, alignment heuristics and blank-cell attributes not judged.",
     design="DESIGN.md section 4, C08"),
 })
 CHECKS.update({
@@ -147,7 +147,9 @@ CHECKS.update({
     text="Every history of model API calls (14 operations, valid and invalid arguments) over a universe of two documents, four regions and elements "
          "of every kind is executed on the real classes; after every call, accepted or rejected, the walker checks link/length agreement, acyclicity, "
          "single parent, one document per tree, content model incl. ruby patterns, region identity, validity of stored style/animation/initial "
-         "values; rejected single-element calls must leave the public state unchanged; accepted calls are compared with the abstract model.",
+         "values; rejected single-element calls must leave the public state unchanged; accepted calls are compared with the abstract model. "
+         "A validity matrix (36 style properties x 260 systematically built values x set_style / put_initial_value / animation step) checks that "
+         "no value the reference calls invalid is ever stored.",
     note="Known finding D-REGION-REF-OFF-BODY attributed by an exact classifier; multi-element operations are not required to be atomic.",
     design="DESIGN.md section 4, C15"),
   "C18": dict(
